@@ -310,6 +310,7 @@ package fsnotify
 //@   requires token(reader) && nolocks() && Wf(w) && RingInv(w)
 //@   requires !closed(w.Events) && !closed(w.Errors) && !closed(w.doneResp) && !pendingRead
 //@   ensures closed(w.Events) && closed(w.Errors) && closed(w.doneResp)                   [C06 C13] "the reader closes both channels when it exits"
+//@   ensures closed(w.done)                                                               [C10 C01 C06] "the reader stops only on a closed Watcher: neither an error nor a queue overflow ends the delivery of events"
 //@   ensures token(closer) ==> !fdOpen                                                    [C13 C06] "whoever marks the watcher closed also releases its descriptor: the reader does not take that role without doing so"
 //@   ensures nolocks()                                                                    [C05]
 //@   local n int
@@ -341,6 +342,7 @@ package fsnotify
 
 //@ func (w *inotify) Close() (err error)
 //@   requires Wf(w) && nolocks()
+//@   atcall os.File.Close: closed(w.done)                                                 [C06 C10 C01] "the inotify file is closed only after the Watcher has been marked closed (the reader takes a read error on a closed file as the end of the Watcher)"
 //@   ensures closed(w.done)                                                               [C06 C05] "after Close the watcher is closed"
 //@   ensures old(closed(w.done)) ==> err == nil                                           [C05] "Close may be called any number of times"
 //@   ensures nolocks()                                                                    [C05 C07]
